@@ -111,6 +111,9 @@ def check(repo: Repo, run: Run) -> None:
     # K9: all / exists absorb element errors: the compiled helpers keep an element's exception as a value
     # (instances shared with C02.T6)
     run.borrow(repo, "C02", "C09.K9", lambda o: o["rule"] == "C02.T6", 2)
+    # K10: "element i equals e at x = l[i]": inside a macro body the iteration variable resolves to the innermost
+    # binding, in both engines (instances shared with C12.N2/N3/N5/N6: macro activations, tie-break, raw field, clone)
+    run.borrow(repo, "C12", "C09.K10", lambda o: o["rule"] in ("C12.N2", "C12.N3", "C12.N5", "C12.N6"), 6)
     # K1 -----------------------------------------------------------------
     impl = impls.get("_[_]")
     if impl is None:
